@@ -162,15 +162,22 @@ __CPROVER_assigns(*pat, g_node_obj)
 __CPROVER_ensures(PAT_IN(*pat) && (long) __CPROVER_POINTER_OFFSET(*pat) > (long) __CPROVER_POINTER_OFFSET(__CPROVER_old(*pat)))
 __CPROVER_ensures(__CPROVER_return_value == 0 || (__CPROVER_return_value == &g_node_obj && g_node_obj.mincnt == 1 && g_node_obj.maxcnt == 1))
 ;
+/* rnode_make as seen by the parser: a zeroed node with the given type and children, repeated exactly once */
+struct rnode g_node_obj2;
+struct rnode *rnode_make_contract(int rn, struct rnode *c1, struct rnode *c2)
+__CPROVER_assigns(g_node_obj2)
+__CPROVER_ensures(__CPROVER_return_value == &g_node_obj2 && g_node_obj2.rn == rn && g_node_obj2.c1 == c1 && g_node_obj2.c2 == c2 &&
+	g_node_obj2.mincnt == 1 && g_node_obj2.maxcnt == 1 && g_node_obj2.ra.s == 0 && g_node_obj2.grp == 0)
+;
 void rnode_free_contract(struct rnode *rnode)
 __CPROVER_requires(rnode != 0)
 __CPROVER_assigns()
 ;
 
+char *g_patp;	/* the parser's position variable in the harness */
 struct rnode *rnode_atom_contract(char **pat)
-__CPROVER_requires(__CPROVER_is_fresh(pat, sizeof(char *)))
-__CPROVER_requires(1 <= g_sl && g_sl <= RX_MAXL && __CPROVER_is_fresh(*pat, g_sl + 1) && (*pat)[g_sl] == 0 && (*pat)[g_sl - 1] == ')' && g_pat == *pat)
-__CPROVER_assigns(*pat, g_node_obj)
+__CPROVER_requires(pat == &g_patp && g_pat != 0 && PAT_IN(g_patp) && 1 <= g_sl && g_sl <= RX_MAXL)
+__CPROVER_assigns(g_patp, g_node_obj, g_node_obj2)
 /* the parser never leaves the pattern string, whatever bytes it holds */
 __CPROVER_ensures(PAT_IN(*pat))
 /* repetition bounds: a node that is returned has sane bounds within the supported number of repetitions
@@ -184,8 +191,87 @@ void h_rnode_atom(void)
 	char **pat;
 	GHOST_INIT();
 	g_sl = nondet_long();
-	g_pat = nondet_ptr();
+	__CPROVER_assume(1 <= g_sl && g_sl <= RX_MAXL);
+	g_pat = malloc(g_sl + 1);
+	__CPROVER_assume(g_pat[g_sl] == 0 && g_pat[g_sl - 1] == ')');
+	long off0 = nondet_long();
+	__CPROVER_assume(0 <= off0 && off0 <= g_sl);
+	g_patp = g_pat + off0;
+	pat = &g_patp;
 	rnode_atom(pat);
+#ifdef CANARY
+	__CPROVER_assert(0, "canary");
+#endif
+}
+
+/* ================================================================== BOUNDED: rnode_atom's repetition syntax (C11) */
+/* every tail of 12 bytes over { digits , { } ) } after a literal 'a': bad, inverted and oversized
+ * bounds, missing braces, more digits than an int holds */
+void h_rnode_atom_bounded(void)
+{
+	char p[15];
+	int i;
+	for (i = 1; i < 13; i++) {
+		p[i] = nondet_char();
+		__CPROVER_assume((p[i] >= '0' && p[i] <= '9') || p[i] == '{' || p[i] == '}' || p[i] == ',' || p[i] == ')');
+	}
+	p[0] = 'a';
+	p[13] = ')';	/* PAT_OK: the last byte of every pattern handed to regcomp is ')' */
+	p[14] = 0;
+	char *pp = p;
+	struct rnode *n = rnode_atom(&pp);
+	__CPROVER_assert(pp >= p && pp <= p + 14, "rnode_atom: the parser stays inside the pattern string");
+	if (n)
+		__CPROVER_assert(0 <= n->mincnt && n->mincnt <= NREPS && (n->maxcnt == -1 || (n->mincnt <= n->maxcnt && n->maxcnt <= NREPS)),
+			"rnode_atom: a node that is returned has 0 <= min <= NREPS and max == -1 or min <= max <= NREPS (bad, inverted or oversized bounds reject the pattern)");
+#ifdef CANARY
+	__CPROVER_assert(0, "canary");
+#endif
+}
+
+/* ================================================================== BOUNDED: the size estimate covers what the emitter writes (C11) */
+/* every tree of depth <= 3 (root with up to two children, each child an atom or a group around an
+ * atom), every node type, every repetition pair (min,max) with min in 0..3 and max in {-1, 0..3},
+ * min <= max: rnode_count() of the tree is at least the number of instructions rnode_emit() writes,
+ * and all writes stay inside an array of exactly rnode_count() entries */
+static struct rnode *mk_node(int rn, struct rnode *c1, struct rnode *c2)
+{
+	struct rnode *n = malloc(sizeof(*n));
+	n->rn = rn;
+	n->c1 = c1;
+	n->c2 = c2;
+	n->grp = 1;
+	n->ra.ra = RA_ANY;
+	n->ra.s = 0;
+	n->mincnt = nondet_int();
+	n->maxcnt = nondet_int();
+	/* what rnode_atom guarantees for every node it returns (units rx.rnode_atom*) */
+	__CPROVER_assume(0 <= n->mincnt && n->mincnt <= 3 && (n->maxcnt == -1 || (n->mincnt <= n->maxcnt && n->maxcnt <= 3)));
+	return n;
+}
+static struct rnode *mk_leaf(void)
+{
+	struct rnode *a = mk_node(RN_ATOM, 0, 0);
+	if (nondet_bool())
+		return a;
+	a->mincnt = 1;	/* the atom inside a group child is repeated exactly once */
+	a->maxcnt = 1;
+	return mk_node(RN_GRP, a, 0);
+}
+void h_count_vs_emit(void)
+{
+	int rn = nondet_int();
+	__CPROVER_assume(rn == RN_ATOM || rn == RN_CAT || rn == RN_ALT || rn == RN_GRP);
+	struct rnode *root = rn == RN_ATOM ? mk_node(RN_ATOM, 0, 0) :
+		rn == RN_GRP ? mk_node(RN_GRP, nondet_bool() ? mk_leaf() : (struct rnode *) 0, 0) : mk_node(rn, mk_leaf(), mk_leaf());
+	int cnt = rnode_count(root);
+	__CPROVER_assert(cnt >= 0, "rnode_count: non-negative");
+	struct regex re;
+	re.n = 0;
+	re.flg = 0;
+	re.p = malloc((cnt + 1) * sizeof(re.p[0]));	/* exactly the estimate (one spare entry so that an empty program has an array) */
+	rnode_emit(root, &re);
+	__CPROVER_assert(re.n <= cnt, "rnode_count >= number of instructions rnode_emit writes: the program fits the memory reserved");
 #ifdef CANARY
 	__CPROVER_assert(0, "canary");
 #endif
